@@ -1,6 +1,7 @@
 import Autobean.Proofs.CodecSimple
 import Autobean.Proofs.CodecBCTotal
 import Autobean.Proofs.CodecNum
+import Autobean.Proofs.CodecAccCur
 /-!
 # C12 — token value, raw text and lexer agree for every value in the domain
 
@@ -389,16 +390,36 @@ theorem num_setter_machine (ops : List (Op Dec)) (s : Tok Dec) (h0 : numCodec.Co
 
 /-! ## Account, Currency — value = raw text; domain = the lexemes of the terminal -/
 
-/-- Only the `rest = []` case, which is the definition of the domain (`domAccount v` says `v` is an ACCOUNT lexeme);
+/-- (Superseded by `account_lex_format` below; kept.)  Only the `rest = []` case, which is the definition of the domain (`domAccount v` says `v` is an ACCOUNT lexeme);
 `format` and `parse` are the identity.  MISSING: `lexAccount (v ++ rest) = some (v, rest)` for non-extending `rest`
 (the terminal models are validated against `re` by the harness only). -/
 theorem account_lex_format_partial (v : Text) (h : domAccount v = true) : lexAccount (v ++ []) = some (v, []) := by
   simpa [domAccount] using h
 
-/-- As `account_lex_format_partial`, for CURRENCY (whose regex backtracks: the lexeme is the longest prefix of the body run
+/-- (Superseded by `currency_lex_format` below; kept.)  As `account_lex_format_partial`, for CURRENCY (whose regex backtracks: the lexeme is the longest prefix of the body run
 ending in `[A-Z0-9]`).  MISSING: non-empty `rest`. -/
 theorem currency_lex_format_partial (v : Text) (h : domCurrency v = true) : lexCurrency (v ++ []) = some (v, []) := by
   simpa [domCurrency] using h
+
+/-- ACCOUNT lexes an account `v` (any lexeme of the terminal) back out of `v ++ rest` for every `rest` that cannot extend
+it: `rest` is empty, or starts with a character outside `[A-Za-z0-9-]|non-ASCII` which, if it is `:`, is not followed by a
+name start `[A-Z0-9]|non-ASCII` (`StopAccount`, the exact condition — see the `example`s below for both ways of extending).
+Supersedes `account_lex_format_partial`. -/
+theorem account_lex_format (v rest : Text) (h : domAccount v = true) (hr : StopAccount rest) :
+    lexAccount (v ++ rest) = some (v, rest) :=
+  lexAccount_append v rest (by simpa [domAccount] using h) hr
+
+/-- CURRENCY lexes a currency `v` (any lexeme of the terminal, both alternatives) back out of `v ++ rest` whenever the run
+of body characters `[A-Z0-9'._-]` at the start of `rest` contains no `[A-Z0-9]` (`StopCurrency`): the greedy body takes the
+run and backtracking returns to the end of `v`.  Supersedes `currency_lex_format_partial`. -/
+theorem currency_lex_format (v rest : Text) (h : domCurrency v = true) (hr : StopCurrency rest) :
+    lexCurrency (v ++ rest) = some (v, rest) :=
+  lexCurrency_append v rest (by simpa [domCurrency] using h) hr
+
+/-- The usual case: the first character of `rest` is not in `[A-Z0-9'._-]`. -/
+theorem currency_lex_format_stops (v rest : Text) (h : domCurrency v = true) (hr : Stops isCurBody rest) :
+    lexCurrency (v ++ rest) = some (v, rest) :=
+  currency_lex_format v rest h (StopCurrency.of_stops hr)
 
 /-! ## non-vacuity: the hypotheses hold on concrete, non-trivial inputs and the functions compute -/
 
@@ -428,5 +449,18 @@ example : lexNumber ['1', ',', '2', '3', '4', '.', '5', 'x'] = some (['1', ',', 
     parseNum ['1', ',', '2', '3', '4', '.', '5'] = .ok ⟨12345, -1⟩ := ⟨by decide, by rfl⟩
 example : Stops numCont [' ', '1'] := Or.inr ⟨_, _, rfl, by decide⟩
 example : domAccount ['A', ':', 'B'] = true ∧ domCurrency ['U', 'S', 'D'] = true := by decide
+
+-- ACCOUNT / CURRENCY followed by text: stop conditions hold on `:x`, ` 1`, `-.'` and fail exactly where the lexeme grows
+example : StopAccount [':', 'x', 'Y'] ∧ StopAccount [' ', 'B'] ∧ StopAccount [':'] :=
+  ⟨Or.inr ⟨_, _, rfl, by decide, fun _ => Or.inr ⟨_, _, rfl, by decide⟩⟩, Or.inr ⟨_, _, rfl, by decide, fun h => absurd h (by decide)⟩,
+   Or.inr ⟨_, _, rfl, by decide, fun _ => Or.inl rfl⟩⟩
+example : lexAccount (['A', ':', 'B', 'c'] ++ [':', 'x']) = some (['A', ':', 'B', 'c'], [':', 'x']) := by decide
+example : lexAccount (['A', ':', 'B'] ++ [':', '9']) = some (['A', ':', 'B', ':', '9'], []) ∧
+    lexAccount (['A', ':', 'B'] ++ ['-']) = some (['A', ':', 'B', '-'], []) := by decide
+example : StopCurrency ['-', '.', '\'', ' ', 'X'] ∧ StopCurrency [' ', 'X'] ∧ ¬ StopCurrency ['-', 'X'] := by
+  decide
+example : domCurrency ['/', 'N', 'Q', '2'] = true ∧
+    lexCurrency (['/', 'N', 'Q', '2'] ++ ['-', '.', ' ']) = some (['/', 'N', 'Q', '2'], ['-', '.', ' ']) ∧
+    lexCurrency (['U', 'S', 'D'] ++ ['-', 'X']) = some (['U', 'S', 'D', '-', 'X'], []) := by decide
 
 end Autobean.C12
